@@ -49,7 +49,7 @@ func (r *streamReader) Receive(stream DRPCRemote_ReceiveStream) error {
 			}
 			target := envelope.Targets[msg.TargetIndex]
 			var sender *actor.PID
-			if len(envelope.Senders) > 0 {
+			if msg.SenderIndex != noPIDIndex && len(envelope.Senders) > 0 {
 				sender = envelope.Senders[msg.SenderIndex]
 			}
 			r.remote.engine.SendLocal(target, payload, sender)
@@ -71,7 +71,7 @@ func validateIndices(envelope *Envelope, msg *Message) error {
 	if msg.TargetIndex < 0 || int(msg.TargetIndex) >= len(envelope.Targets) {
 		return errors.New("target index out of range")
 	}
-	if len(envelope.Senders) > 0 && (msg.SenderIndex < 0 || int(msg.SenderIndex) >= len(envelope.Senders)) {
+	if msg.SenderIndex != noPIDIndex && len(envelope.Senders) > 0 && (msg.SenderIndex < 0 || int(msg.SenderIndex) >= len(envelope.Senders)) {
 		return errors.New("sender index out of range")
 	}
 	return nil
